@@ -104,6 +104,8 @@ async fn run_case(script: &[LStep]) -> Result<CaseResult, String> {
     // per lane: the last value the remote has received
     let mut seen: std::collections::BTreeMap<String, String> = Default::default();
     let mut late_events_seen = 0usize;
+    // per lane: every value the agent has produced, in order (across incarnations)
+    let mut produced: std::collections::BTreeMap<String, Vec<String>> = Default::default();
     settle().await;
     for st in script {
         match st {
@@ -135,7 +137,11 @@ async fn run_case(script: &[LStep]) -> Result<CaseResult, String> {
                                 if instance > 1 {
                                     let want = seen.get("late").cloned();
                                     if let Some(w) = want {
-                                        if restored.as_deref() != Some(w.as_str()) {
+                                        // (what was seen, or a value the lane produced after it)
+                                        let list = produced.get("late").cloned().unwrap_or_default();
+                                        let seen_at = list.iter().rposition(|x| *x == w);
+                                        let restored_at = restored.as_ref().and_then(|rv| list.iter().rposition(|x| x == rv));
+                                        if !matches!((seen_at, restored_at), (Some(a), Some(b)) if b >= a) {
                                             violations.push((
                                                 "law=late_lane_restored_to_what_was_seen".into(),
                                                 format!("the remote had received {:?} on lane late from the first incarnation; the second was handed {:?}; log {:?}", w, restored, log),
@@ -161,11 +167,15 @@ async fn run_case(script: &[LStep]) -> Result<CaseResult, String> {
             }
             LStep::EvV(x) => {
                 let w = &mut inc.h.lanes[0].2;
-                write_event(w, *x).await;
+                if write_event(w, *x).await {
+                    produced.entry("v".into()).or_default().push(x.to_string());
+                }
             }
             LStep::EvLate(x) => {
                 if let Some(w) = inc.late.as_mut() {
-                    write_event(w, *x).await;
+                    if write_event(w, *x).await {
+                        produced.entry("late".into()).or_default().push(x.to_string());
+                    }
                 }
             }
             LStep::Restart => {
@@ -199,7 +209,13 @@ async fn run_case(script: &[LStep]) -> Result<CaseResult, String> {
         let state = log_store.state.lock();
         for (lane, val) in &seen {
             let stored = state.ids.get(lane).and_then(|id| state.values.get(id)).map(|v| String::from_utf8_lossy(v).to_string());
-            if stored.as_deref() != Some(val.as_str()) {
+            // the store holds what the subscriber saw, or a value the lane produced later (a later
+            // incarnation may have gone on without this subscriber)
+            let list = produced.get(lane).cloned().unwrap_or_default();
+            let seen_at = list.iter().rposition(|x| x == val);
+            let stored_at = stored.as_ref().and_then(|sv| list.iter().rposition(|x| x == sv));
+            let ok = matches!((seen_at, stored_at), (Some(a), Some(b)) if b >= a);
+            if !ok {
                 let sig = format!("law=seen_by_a_subscriber_implies_stored lane={}", if lane == "late" { "registered_late" } else { "initial" });
                 if !violations.iter().any(|(s, _)| *s == sig) {
                     violations.push((sig, format!("the remote has received {:?} on persistent lane {} but the store holds {:?}; log {:?}", val, lane, stored, log)));
